@@ -105,8 +105,8 @@ def distsum (args impl : List String) : Option (String × String) := do
     let cycles ← cycles.toNat?
     let rates := (← parseInts rates).toArray
     let N := (tickSteps iv).toNat
-    if iv ≤ subTickNs ∨ N = 0 then none else
-    let rf := fun i => rates.getD i 0
+    if iv ≤ subTickNs ∨ N = 0 ∨ rates.size = 0 then none else
+    let rf := fun i => rates.getD (i % rates.size) 0
     let (toks, gap, evals) := Id.run do
       let mut sf := RegF.init
       let mut sz := RegZ.init
